@@ -265,7 +265,12 @@ Definition last_seg_name (t : ty) : string :=
 Definition u_enc (t : ty) (v : json) : json := v.
 Definition u_dec (t : ty) (j : json) : option json := if conforms t j then Some j else None.
 Definition u_is_option (t : ty) : bool := last_seg_name t =? "Option".
-Definition u_default (t : ty) : json :=
-  let n := last_seg_name t in
-  if n =? "String" then JStr "" else if n =? "bool" then JBool false
-  else if n =? "Option" then JNull else if n =? "Vec" then JArr [] else JNum 0.
+Fixpoint u_default (t : ty) : json :=
+  match t with
+  | TTuple items => JArr (map u_default items)
+  | TRef x => u_default x
+  | TPath _ =>
+      let n := last_seg_name t in
+      if n =? "String" then JStr "" else if n =? "bool" then JBool false
+      else if n =? "Option" then JNull else if n =? "Vec" then JArr [] else JNum 0
+  end.
